@@ -478,6 +478,7 @@ namespace c18
   struct TagL3 { template<typename T_> using Space = FEAT::Space::Lagrange3::Element<T_>; };
   struct TagD0 { template<typename T_> using Space = FEAT::Space::Discontinuous::Element<T_, FEAT::Space::Discontinuous::Variant::StdPolyP<0>>; };
   struct TagD1 { template<typename T_> using Space = FEAT::Space::Discontinuous::Element<T_, FEAT::Space::Discontinuous::Variant::StdPolyP<1>>; };
+  struct TagCR { template<typename T_> using Space = FEAT::Space::CroRavRanTur::Element<T_>; };
   struct TagB2 { template<typename T_> using Space = FEAT::Space::Bernstein2::Element<T_>; };
 
   typedef Geometry::ConformalMesh<Shape::Quadrilateral, 2, Q> QuadMesh;
